@@ -236,7 +236,7 @@ class C09(Prop):
         run_given(seed * 1000 + 700 + shard, n,
                   st.tuples(st.integers(0, 10 ** 6), st.lists(st.sampled_from([1, 2, 3]), min_size=0, max_size=400)), one)
         # degenerate shapes, spread over the shards
-        jobs = [("siblings", 50), ("siblings", 300), ("deep", 120), ("deep", 1000)]
+        jobs = [("siblings", 50), ("siblings", 300), ("deep", 120), ("deep", 1000), ("comb", 10)]
         for j, (shape, size) in enumerate(jobs):
             if j % nshards == shard % len(jobs) and shard < len(jobs):
                 self.degenerate(ctx, shape, size)
@@ -245,7 +245,13 @@ class C09(Prop):
         case = Case(self, ctx, Config(backend="memory"), None)
         try:
             base = b"s:http|h:com|h:deg|"
-            if shape == "siblings":
+            if shape == "comb":
+                lrus = []
+                for c in b"abcdefghij"[:size]:
+                    top = base + b"p:%c|" % c
+                    lrus += [top, top + b"p:x|", top + b"p:x|p:y|", top + b"p:z|"]
+                case.step(("pages", lrus, True))
+            elif shape == "siblings":
                 lrus = [base + b"p:%05d|" % i for i in range(size)]
                 case.step(("pages", lrus, True))
             else:
@@ -257,7 +263,7 @@ class C09(Prop):
             try:
                 seq, mem = self.expected_sequence(case, w, order, False)
                 got, tok, calls = [], None, 0
-                k = 7
+                k = 1 if shape == "comb" else 7
                 while True:
                     r = self.call(case, w, order, k, tok, False)
                     calls += 1
